@@ -92,7 +92,7 @@ def register(reg):
     # exactly the five that cannot be hashed (they do not change how the grammar is loaded) - from the property: "different options"
     reg.specfun('OPTSTR', [('d', 'OptDict'), ('n', 'int')], 'str',
                 body="'' if n <= 0 else OPTSTR(d, n - 1) + ('' if ITEMK(d, n - 1) in %s else repr((ITEMK(d, n - 1), str(ITEMV(d, n - 1)))))" % UNH)
-    reg.contract('lark.lark:Lark.__init__#key', serves=['C12'], region=key_region,
+    reg.contract('lark.lark:Lark.__init__#key', serves=['C12', 'C11'], region=key_region,
                  params={'grammar': 'str', 'options': 'OptDict'},
                  ensures=[], ghost={
                      'ensures_fall': ['options_str == OPTSTR(options, NITEMS(options))',
@@ -118,7 +118,7 @@ def register(reg):
     reg.contract('pkgutil.get_data.decode', assumed=True, params={'path': 'any'}, ghost_params=['path'], returns='str',
                  raises={'IOError': ['TEXTOF(path) is None']},
                  ensures=['TEXTOF(path) is not None', 'result == val(TEXTOF(path))'])
-    reg.contract('lark.load_grammar:verify_used_files', serves=['C12'],
+    reg.contract('lark.load_grammar:verify_used_files', serves=['C12', 'C11'],
                  params={'file_hashes': 'dict[any,str]'}, returns='bool',
                  types={'text': 'opt[str]'},
                  ensures=[
@@ -146,7 +146,7 @@ def register(reg):
     reg.specfun('USEDOK', [('h', 'any')], 'bool')
     reg.contract('lark.lark:Lark._load', assumed=True, kind='method', params={'self': 'Lark', 'f': 'any', 'kwargs': 'dict[str,any]'},
                  returns='Lark', modifies=['self'], raises={'Exception': []})      # may fail half-way, having overwritten attributes of self
-    reg.contract('lark.lark:Lark.__init__#load', serves=['C12'], region=load_region,
+    reg.contract('lark.lark:Lark.__init__#load', serves=['C12', 'C11'], region=load_region,
                  params={'self': 'Lark', 'options': 'dict[str,any]', 'cache_fn': 'str', 'cache_sha256': 'str', '_LOAD_ALLOWED_OPTIONS': 'set[str]'},
                  modifies=['self', 'options'],
                  # `return` inside the region = cache hit: only with a matching header and unchanged used files
